@@ -346,6 +346,19 @@ def stream_parts(rng, tier):
         for f in "ui":
             yield "parts %s ref %s" % (f, hx(s))
             yield "parts %s full %s" % (f, hx(s))
+    # every shape of authority (user info or none, every kind of host incl. IP literals, port or
+    # none) behind '//' alone and behind a scheme, followed by every kind of continuation: the
+    # scheme-less and the scheme-led references go through different scanner entry points
+    for f in "ui":
+        _, Hf, _, _, _ = fam_lists(f)
+        hosts = list(_ORIG["HOSTS_I" if f == "i" else "HOSTS"]) if _ORIG else list(Hf)
+        for u in [None, "", "u", "u:p"]:
+            for h in hosts:
+                for pt in [None, "", "80"]:
+                    au = ("" if u is None else u + "@") + h + ("" if pt is None else ":" + pt)
+                    for tail in ["", "/", "/p", "?q", "#f", "/p?q#f", "//x", "/a:b", "?[", "#]"]:
+                        yield "parts %s ref %s" % (f, hx("//" + au + tail))
+                        yield "parts %s full %s" % (f, hx("s://" + au + tail))
     n = 12000 if tier == "quick" else 200000
     for _ in range(n):
         f = rng.choice("ui")
